@@ -401,6 +401,46 @@ Definition hr_ladder (w : wkind) (r : resp) (e : exn) (fs : list fault) : hres *
     else (HExn e, fs, [])
   else (HExn e, fs, []).
 
+(* respiter = self.wsgi(environ, resp.start_response); then, inside try/finally, the body is written and
+   resp.close() is called.  Returns whether the try/finally block was entered (=> one access record),
+   the exception if any, the response state, the events. *)
+Definition serve (c : cfg) (h : head) (r0 : resp) (a : app) (fs : list fault)
+  : bool * option exn * resp * list fault * list ev :=
+  let '(p, r1, fs1, e1) := run_call h r0 (a_acts a) fs in
+  match p with
+  | PRaised e => (false, Some e, r1, fs1, e1)
+  | _ =>
+    let rest := match p with PReturned t => t | _ => [] end in
+    let '(x2, r2, fs2, e2) :=
+      match a_file a with
+      | Some fl => resp_write_file c h r1 fl fs1
+      | None => run_iter h r1 rest fs1
+      end in
+    let '(x3, r3, fs3, e3) :=
+      match x2 with
+      | Some e => (Some e, r2, fs2, [])
+      | None => resp_close h r2 fs2
+      end in
+    (true, x3, r3, fs3, e1 ++ e2 ++ e3)
+  end.
+
+(* after a completed response: sync returns, gthread returns the keep-alive verdict, async raises
+   StopIteration when the connection must close *)
+Definition hr_after (w : wkind) (h : head) (r : resp) : option hres :=
+  match w with
+  | WSync => Some (HRet false)
+  | WGthread => match should_close h r with
+                | None => None
+                | Some true => Some (HRet false)
+                | Some false => Some (HRet true)
+                end
+  | WAsync => match should_close h r with
+              | None => None
+              | Some true => Some (HExn exn_stop)
+              | Some false => Some (HRet true)
+              end
+  end.
+
 Definition handle_request (w : wkind) (c : cfg) (st : wst) (h : head) (a : app) (fs : list fault)
   : hres * wst * list fault * list ev :=
   (* wsgi.create: 100-continue, then possibly ConfigurationProblem; resp is still None in the handlers *)
@@ -412,45 +452,17 @@ Definition handle_request (w : wkind) (c : cfg) (st : wst) (h : head) (a : app) 
     | Some e => (HExn e, st, fs0, e0)
     | None =>
       let '(st1, force) := count_request w c st in
-      let r0 := resp_init force in
-      (* respiter = self.wsgi(environ, resp.start_response) *)
-      let '(p, r1, fs1, e1) := run_call h r0 (a_acts a) fs0 in
-      match p with
-      | PRaised e => let '(hr, fs2, e2) := hr_ladder w r1 e fs1 in (hr, st1, fs2, e0 ++ [EvApp] ++ e1 ++ e2)
-      | _ =>
-        let rest := match p with PReturned t => t | _ => [] end in
-        (* try: write the body, resp.close()  finally: log.access *)
-        let '(x2, r2, fs2, e2) :=
-          match a_file a with
-          | Some fl => resp_write_file c h r1 fl fs1
-          | None => run_iter h r1 rest fs1
-          end in
-        let '(x3, r3, fs3, e3) :=
-          match x2 with
-          | Some e => (Some e, r2, fs2, [])
-          | None => resp_close h r2 fs2
-          end in
-        let acc := [EvAccess (r_status r3) (r_sent r3)] in
-        let pre := e0 ++ [EvApp] ++ e1 ++ e2 ++ e3 ++ acc in
-        match x3 with
-        | Some e => let '(hr, fs4, e4) := hr_ladder w r3 e fs3 in (hr, st1, fs4, pre ++ e4)
-        | None =>
-          match w with
-          | WSync => (HRet false, st1, fs3, pre)
-          | WGthread =>
-              match should_close h r3 with
-              | None => let '(hr, fs4, e4) := hr_ladder w r3 exn_generic fs3 in (hr, st1, fs4, pre ++ e4)
-              | Some true => (HRet false, st1, fs3, pre)
-              | Some false => (HRet true, st1, fs3, pre)
-              end
-          | WAsync =>
-              match should_close h r3 with
-              | None => let '(hr, fs4, e4) := hr_ladder w r3 exn_generic fs3 in (hr, st1, fs4, pre ++ e4)
-              | Some true => (HExn exn_stop, st1, fs3, pre)       (* raise StopIteration(); re-raised *)
-              | Some false => (HRet true, st1, fs3, pre)
-              end
-          end
-        end
+      let '(logged, x, r, fs1, body) := serve c h (resp_init force) a fs0 in
+      (* finally: self.log.access(resp, req, environ, request_time) *)
+      let acc := if logged then [EvAccess (r_status r) (r_sent r)] else [] in
+      let pre := e0 ++ EvApp :: body ++ acc in
+      let failed (e : exn) := let '(hr, fs2, e2) := hr_ladder w r e fs1 in (hr, st1, fs2, pre ++ e2) in
+      match x with
+      | Some e => failed e
+      | None => match hr_after w h r with
+                | Some hr => (hr, st1, fs1, pre)
+                | None => failed exn_generic        (* AttributeError in resp.should_close() *)
+                end
       end
     end
   end.
